@@ -34,7 +34,8 @@ def materialise(world, dirpath, samples, build="hg19", profile_yaml=True, extra=
     man["neutral"] = W.neutral_arg(world, build)
     if profile_yaml:
         man["profile_yml"] = write_profile_yaml(world, dirpath, "ref.bam", build, {},
-                                                "refprofile.yml")
+                                                "refprofile.yml",
+                                                absent_contig=bool(extra and extra.get("profile_absent_contig")))
     for name, smp in samples.items():
         reads = W.sample_reads(world, smp)
         if smp.get("paired"):
@@ -46,7 +47,7 @@ def materialise(world, dirpath, samples, build="hg19", profile_yaml=True, extra=
     return man
 
 
-def write_profile_yaml(world, dirpath, bam, build, params, outname, genes=None):
+def write_profile_yaml(world, dirpath, bam, build, params, outname, genes=None, absent_contig=False):
     """Profile text produced by aldy's own profile code (profile.py:305-416),
     dumped the way the CLI dumps it."""
     import yaml
@@ -62,6 +63,13 @@ def write_profile_yaml(world, dirpath, bam, build, params, outname, genes=None):
         for gi, gr in enumerate(gg.regions):
             for r, rng in gr.items():
                 regions[gg.name, r, gi] = rng
+    if absent_contig:
+        # `aldy profile` scans every shipped gene; most of their chromosomes are not in a panel's header.  One
+        # such region (a chromosome that sorts before the simulated one and is not in the file): it must simply
+        # stay empty
+        from aldy.gene import GRange
+
+        regions["ABSENT", "e1", 0] = GRange("1", 5000, 5600)
     d = Profile.get_sam_profile_data(
         os.path.join(dirpath, bam),
         regions=regions,
